@@ -271,3 +271,15 @@ QUERY_OK = ['A[] g >= 0', 'E<> b', 'A<> P.L', 'E[] not b', 'b --> g > 0', 'A[] n
             'strategy S1 = control: A<> b', 'strategy S2 = minE(g)[<=10] : <> b', 'strategy S3 = loadStrategy {g} -> {x} ("f.json")', 'strategy S4 = control_t*(5): A<> b',
             'A[] forall (i : int[0,2]) a[i] >= 0', 'E<> exists (i : id_t) a[i % 3] == 1', 'E<> sum (i : int[0,2]) a[i] > 2', 'A[] s.a >= 0 imply s.b']
 
+# queries over dynamic templates (a model that declares, defines and spawns one): members through quantified process variables, with and without the brackets the
+# grammar wants around the body (without them the dot applies to the whole quantifier), counts, nested binders
+DYN_MODEL = ('<?xml version="1.0" encoding="utf-8"?><nta><declaration>int g; broadcast chan c;\ndynamic Child(const int di);</declaration>'
+             '<template><name>Child</name><parameter>const int di</parameter><declaration>int n; clock z;</declaration><location id="idd"><name>L</name></location><init ref="idd"/></template>'
+             '<template><name>T</name><location id="id0"/><location id="id1"/><init ref="id0"/><transition><source ref="id0"/><target ref="id1"/><label kind="assignment">spawn Child(1)</label></transition></template>'
+             '<system>system T;</system></nta>')
+DYN_QUERIES = ['simulate [<=10] { sum (p : Child) p.n }', 'simulate [<=10] { sum (p : Child) (p.n + 1) }', 'E[<=10; 10](max: sum (p : Child) p.n)', 'Pr[<=10](<> exists (p : Child) (p.n > 0))',
+               'Pr[<=10](<> exists (p : Child) p.n > 0)', 'Pr[<=10](<> forall (p : Child) p.L)', 'Pr[<=10](<> forall (p : Child) (p.L))', 'simulate [<=10] { numOf(Child) }', 'Pr[<=10](<> numOf(Child) > 2)',
+               'E<> exists (p : Child) (p.n > 0)', 'A[] forall (p : Child) (p.n >= 0)', 'Pr[<=10](<> exists (p : Child) (forall (q : Child) (p.n >= q.n)))', 'simulate [<=10] { sum (p : Child) p }',
+               'Pr[<=10](<> exists (p : Child) p)', 'simulate [<=10] { (sum (p : Child) (p.n)).x }', 'Pr[<=10](<> exists (p : Nope) (p.n > 0))', 'Pr[<=10](<> exists (p : Child) (p.nope > 0))',
+               'Pr[<=10](<> exists (p : Child) (q.n > 0))', 'simulate [<=10] { sum (p : Child) (p.z) }', "Pr[<=10](<> exists (p : Child) (p.n' == 1))", 'Pr[<=10](<> exists (p : T) (p.n > 0))']
+
